@@ -218,6 +218,13 @@ fn tree_case(r: &mut Rng, stats: &mut Stats) -> Result<(), String> {
 				}
 			}
 		}
+		// the device announces a sample rate (the one already in force) between two callbacks: nothing is removed, paused or
+		// resumed by that - the removal rules are the audio callback's alone
+		if r.chance(0.12) {
+			sc.rig.change_sample_rate(SR);
+			sc.log.push(format!("cb{}: sample rate announced", cb));
+			stats.rate_announcements += 1;
+		}
 		// ---- model: what takes hold at this callback's start
 		let stopped_before: Vec<Vec<bool>> = sc.nodes.iter().map(|n| n.sounds.iter().map(|s| s.0.state() == PlaybackState::Stopped).collect()).collect();
 		// removal (evaluated by the audio thread before it reads the new commands of the same callback)
@@ -771,6 +778,7 @@ pub struct Stats {
 	pub mask_checks: u64,
 	pub position_checks: u64,
 	pub state_queries: u64,
+	pub rate_announcements: u64,
 }
 
 pub fn run(ctx: &mut Ctx) {
@@ -818,6 +826,7 @@ pub fn run(ctx: &mut Ctx) {
 	ctx.count("audible_set_checks", stats.mask_checks);
 	ctx.count("position_continuity_checks", stats.position_checks);
 	ctx.count("state_queries", stats.state_queries);
+	ctx.count("sample_rate_announcements_between_callbacks", stats.rate_announcements);
 	ctx.sample(jobj! {"monitor" => "track trees", "note" => "1-6 tracks (nested, persist on/off), DC sounds with power-of-two levels (the output level decodes the audible set), instant pause/resume, handle drops, sound stops; audible set, positions, num_sub_tracks and state() compared with the model after every callback"});
 }
 
